@@ -30,9 +30,25 @@ ASSUMPTIONS = ["a problem whose first parse raises is C05's business and is skip
 CASE_TIMEOUT = 120
 
 
+_SHARED = None
+
+
 def export(P):
+    """exported text from a fresh exporter; a long-lived exporter (re-used for every problem of this process) must
+    produce the same text"""
+    global _SHARED
     from pddl_plus_parser.exporters import ProblemExporter
-    return ProblemExporter().extract_problem(P)
+    fresh = ProblemExporter().extract_problem(P)
+    if _SHARED is None:
+        _SHARED = ProblemExporter()
+    again = _SHARED.extract_problem(P)
+    if sexp.read(again) != sexp.read(fresh):
+        raise ExporterStateful(f"a re-used ProblemExporter exports a different text than a fresh one:\n{again}\n---\n{fresh}")
+    return fresh
+
+
+class ExporterStateful(Exception):
+    pass
 
 
 def shipped_problems():
